@@ -2,6 +2,7 @@ SPECIFICATION Spec
 CONSTANTS
   Thr = {"A", "B"}
   Steps = 4
+  LazyTable = FALSE
   SharedWorkspace = FALSE
   Export = TRUE
 INVARIANT Inv
